@@ -40,6 +40,17 @@ def gen_inputs(ck):
     small = b"interface a.b\ntype T (a: ?[]int, b: [string](x, y))\n# d\nmethod M(a: T) -> (b: bool)\nerror E (c: string)\n"
     add("every-byte", G.every_byte_everywhere(small, None if thorough else range(0, len(small) + 1, 3)))
     add("every-byte", G.every_byte_everywhere(b"interface a.b method M()->()"))
+    # a malformed token where one is required, with a well-formed look-alike of the same length elsewhere in the text (comment, later word):
+    # a reader that searches instead of matching at the cursor picks the look-alike up and skips the junk
+    names = [b"a.b", b"xn--a.b", b"xn--9om.example", b"org.example.more", b"xn--ab.c-d.e9"]
+    tails = [b"\nmethod M() -> ()\n", b" method M() -> ()", b"\ntype T (a: int)\nmethod M() -> ()\n"]
+    for nm in names:
+        junks = {b"9" + nm[1:], b"-" + nm[1:], b"." + nm[1:], nm[:1] + b"_" + nm[2:], nm.replace(b".", b"_"), b"9" * len(nm), b"9" + b" " * (len(nm) - 1),
+                 b"9.9" + b" " * max(0, len(nm) - 3), nm.upper() if nm.startswith(b"xn--") else b"1" + nm[1:]}
+        for j in junks:
+            for tl in tails:
+                add("lookalike-elsewhere", [b"interface " + j + b"\n# " + nm + tl, b"# " + nm + b"\ninterface " + j + tl, b"interface " + j + nm + tl,
+                                            b"interface " + j + tl + b"# " + nm + b"\n", b"interface " + j + b" # see " + nm + tl])
     return inputs
 
 
